@@ -16,6 +16,12 @@ theories/Event/Merge.vos theories/Event/Merge.vok theories/Event/Merge.required_
 theories/Event/Merge_proofs.vo theories/Event/Merge_proofs.glob theories/Event/Merge_proofs.v.beautified theories/Event/Merge_proofs.required_vo: theories/Event/Merge_proofs.v theories/Base/Prelude.vo theories/Base/Bytes.vo theories/Event/Merge.vo theories/Event/Hash.vo theories/Event/Hash_proofs.vo
 theories/Event/Merge_proofs.vio: theories/Event/Merge_proofs.v theories/Base/Prelude.vio theories/Base/Bytes.vio theories/Event/Merge.vio theories/Event/Hash.vio theories/Event/Hash_proofs.vio
 theories/Event/Merge_proofs.vos theories/Event/Merge_proofs.vok theories/Event/Merge_proofs.required_vos: theories/Event/Merge_proofs.v theories/Base/Prelude.vos theories/Base/Bytes.vos theories/Event/Merge.vos theories/Event/Hash.vos theories/Event/Hash_proofs.vos
+theories/Event/Stream.vo theories/Event/Stream.glob theories/Event/Stream.v.beautified theories/Event/Stream.required_vo: theories/Event/Stream.v theories/Base/Prelude.vo theories/Event/Merge.vo
+theories/Event/Stream.vio: theories/Event/Stream.v theories/Base/Prelude.vio theories/Event/Merge.vio
+theories/Event/Stream.vos theories/Event/Stream.vok theories/Event/Stream.required_vos: theories/Event/Stream.v theories/Base/Prelude.vos theories/Event/Merge.vos
+theories/Event/Merge_order_proofs.vo theories/Event/Merge_order_proofs.glob theories/Event/Merge_order_proofs.v.beautified theories/Event/Merge_order_proofs.required_vo: theories/Event/Merge_order_proofs.v theories/Base/Prelude.vo theories/Base/Bytes.vo theories/Event/Merge.vo theories/Event/Merge_proofs.vo
+theories/Event/Merge_order_proofs.vio: theories/Event/Merge_order_proofs.v theories/Base/Prelude.vio theories/Base/Bytes.vio theories/Event/Merge.vio theories/Event/Merge_proofs.vio
+theories/Event/Merge_order_proofs.vos theories/Event/Merge_order_proofs.vok theories/Event/Merge_order_proofs.required_vos: theories/Event/Merge_order_proofs.v theories/Base/Prelude.vos theories/Base/Bytes.vos theories/Event/Merge.vos theories/Event/Merge_proofs.vos
 theories/Parse/Dispatch.vo theories/Parse/Dispatch.glob theories/Parse/Dispatch.v.beautified theories/Parse/Dispatch.required_vo: theories/Parse/Dispatch.v theories/Base/Prelude.vo
 theories/Parse/Dispatch.vio: theories/Parse/Dispatch.v theories/Base/Prelude.vio
 theories/Parse/Dispatch.vos theories/Parse/Dispatch.vok theories/Parse/Dispatch.required_vos: theories/Parse/Dispatch.v theories/Base/Prelude.vos
@@ -31,6 +37,9 @@ theories/Props/C01.vos theories/Props/C01.vok theories/Props/C01.required_vos: t
 theories/Props/C04.vo theories/Props/C04.glob theories/Props/C04.v.beautified theories/Props/C04.required_vo: theories/Props/C04.v theories/Base/Prelude.vo theories/Base/Bytes.vo theories/Event/Merge.vo theories/Event/Hash.vo theories/Event/Hash_proofs.vo theories/Event/Merge_proofs.vo
 theories/Props/C04.vio: theories/Props/C04.v theories/Base/Prelude.vio theories/Base/Bytes.vio theories/Event/Merge.vio theories/Event/Hash.vio theories/Event/Hash_proofs.vio theories/Event/Merge_proofs.vio
 theories/Props/C04.vos theories/Props/C04.vok theories/Props/C04.required_vos: theories/Props/C04.v theories/Base/Prelude.vos theories/Base/Bytes.vos theories/Event/Merge.vos theories/Event/Hash.vos theories/Event/Hash_proofs.vos theories/Event/Merge_proofs.vos
+theories/Props/C05.vo theories/Props/C05.glob theories/Props/C05.v.beautified theories/Props/C05.required_vo: theories/Props/C05.v theories/Base/Prelude.vo theories/Base/Bytes.vo theories/Event/Merge.vo theories/Event/Merge_proofs.vo theories/Event/Merge_order_proofs.vo
+theories/Props/C05.vio: theories/Props/C05.v theories/Base/Prelude.vio theories/Base/Bytes.vio theories/Event/Merge.vio theories/Event/Merge_proofs.vio theories/Event/Merge_order_proofs.vio
+theories/Props/C05.vos theories/Props/C05.vok theories/Props/C05.required_vos: theories/Props/C05.v theories/Base/Prelude.vos theories/Base/Bytes.vos theories/Event/Merge.vos theories/Event/Merge_proofs.vos theories/Event/Merge_order_proofs.vos
 theories/Props/C14.vo theories/Props/C14.glob theories/Props/C14.v.beautified theories/Props/C14.required_vo: theories/Props/C14.v theories/Base/Prelude.vo theories/Parse/Dispatch.vo theories/Parse/Dispatch_proofs.vo
 theories/Props/C14.vio: theories/Props/C14.v theories/Base/Prelude.vio theories/Parse/Dispatch.vio theories/Parse/Dispatch_proofs.vio
 theories/Props/C14.vos theories/Props/C14.vok theories/Props/C14.required_vos: theories/Props/C14.v theories/Base/Prelude.vos theories/Parse/Dispatch.vos theories/Parse/Dispatch_proofs.vos
